@@ -868,6 +868,54 @@ func verifDirectRenders(out *verifkit.Trace) {
 	texts := []string{"\tone\ttwo\tthree four five six seven", "a line with a tab\tnear its end", "col1\tcol2\tcol3\tcol4\tcol5\tcol6", "caf\xe9 au lait, d\xe9j\xe0 vu, na\xefve r\xe9sum\xe9",
 		"\xe6\x97 broken \xf0\x9f tails \xc3", "```\n\tindented\tcode\twith\ttabs\n```\nafter\tthe\tblock", "=> https://x.example/a\tlabel\twith\ttabs", "> quote\twith\ttabs and more words to fill the line",
 		"\xff\xfe\xfd\xfc\xfb\xfa 0123456789 0123456789"}
+	/* what one document was rendered at says nothing about another: a document with long lines is drawn wide, then a new one of the
+	   same text is made and drawn at 80 first thing; and a large document resized many times over gives, at each width, what it gave
+	   the first time */
+	long := strings.Repeat("word ", 60) + strings.Repeat("w", 150) + " tail"
+	big := strings.Repeat("<b>x</b> <i>y</i> ", 1500)
+	obj := 900000
+	for name, build := range map[string]func(string) (renderer, error){
+		"gemtext":   func(t string) (renderer, error) { m, _, err := gemtext.NewMarkup(t); return m, err },
+		"plaintext": func(t string) (renderer, error) { m, _, err := plaintext.NewMarkup(t); return m, err },
+		"markdown":  func(t string) (renderer, error) { m, _, err := markdown.NewMarkup(t); return m, err },
+		"html":      func(t string) (renderer, error) { m, _, err := hypertext.NewMarkup("<p>" + t + "</p>"); return m, err },
+	} {
+		if first, err := build(long); err == nil {
+			verifkit.Try(func() { first.Render(120); first.Render(33) })
+			for _, w := range []int{120, 33, 80} {
+				verifkit.Try(func() { first.Render(w) })
+				if second, err := build(long); err == nil {
+					var rendered string
+					verifkit.Try(func() { rendered = second.Render(80) })
+					out.Emit(verifkit.M{"ev": "out", "kind": "render-" + name + " (a new document after another was drawn at " + fmt.Sprint(w) + ")", "chk": []string{"width"}, "w": 80, "h": 0,
+						"toks": verifkit.Toks(rendered, nil), "expect": verifkit.M{}, "src": "sixty words and a word of 150 letters"})
+				}
+			}
+		}
+		if name != "html" && name != "markdown" {
+			continue
+		}
+		doc := big
+		if name == "markdown" {
+			doc = strings.Repeat("**x** _y_ ", 1500)
+		}
+		m, err := build(doc)
+		if err != nil {
+			continue
+		}
+		obj++
+		out.Emit(verifkit.M{"ev": "robj", "obj": obj, "markup": name})
+		firsts := map[int]string{}
+		for k := 0; k < 40; k++ {
+			w := []int{40, 41, 60}[k%3]
+			var rendered string
+			panicked, _ := verifkit.Try(func() { rendered = m.Render(w) })
+			if _, seen := firsts[w]; !seen {
+				firsts[w] = verifDigest(rendered)
+			}
+			out.Emit(verifkit.M{"ev": "render", "obj": obj, "markup": name, "w": w, "digest": verifDigest(rendered), "fresh": firsts[w], "panic": panicked, "doc": "3000 styled words, resized forty times"})
+		}
+	}
 	for _, text := range texts {
 		for name, build := range map[string]func(string) (renderer, error){
 			"gemtext":   func(t string) (renderer, error) { m, _, err := gemtext.NewMarkup(t); return m, err },
